@@ -19,6 +19,7 @@ import (
 	"sort"
 	"strings"
 
+	"github.com/go-i2p/common/data"
 	"github.com/go-i2p/common/encrypted_leaseset"
 	"github.com/go-i2p/common/lease_set2"
 	"github.com/go-i2p/common/signature"
@@ -161,6 +162,39 @@ func init() {
 			}
 		} else if len(acc) != len(ls2KeyCandidates) && len(acc) != 0 {
 			fails = append(fails, fail("C10", "use:LeaseSet2-key-validation", "ReadLeaseSet2 + Validate accept only key lengths %v for crypto code %d, which the specification does not define", acc, c))
+		}
+		// the same table as NewLeaseSet2 applies it — the key under test alone, behind a known-type key and behind an
+		// unknown-type key (a per-key rule must hold at every position): accepted exactly with the table's length
+		ctorAcc := func(prefix []lease_set2.EncryptionKey, K int) (bool, string) {
+			d, _, derr := ctorDestination(7, 4, false, []byte{1, 2, 3, 4, 5, 6, 7, 8})
+			if derr != nil || d == nil {
+				return false, "no-destination"
+			}
+			keys := append(append([]lease_set2.EncryptionKey{}, prefix...), lease_set2.EncryptionKey{KeyType: uint16(c), KeyLen: uint16(K), KeyData: ufill(K, 5)})
+			var opts data.Mapping
+			var err error
+			p := try(func() {
+				_, err = lease_set2.NewLeaseSet2(*d, 1700000000, 600, 0, nil, opts, keys, seedLeases2([]byte{9}, 1), nil)
+			})
+			if p != "" {
+				return false, "panic: " + p
+			}
+			return err == nil, ""
+		}
+		x25519 := lease_set2.EncryptionKey{KeyType: 4, KeyLen: 32, KeyData: ufill(32, 1)}
+		unknown := lease_set2.EncryptionKey{KeyType: 0xFF00, KeyLen: 10, KeyData: ufill(10, 2)}
+		if cp, cknown := specCrypto[c]; cknown {
+			for name, prefix := range map[string][]lease_set2.EncryptionKey{"alone": nil, "after an X25519 key": {x25519}, "after an unknown-type key": {unknown}} {
+				for _, K := range []int{cp, cp + 1} {
+					got, why := ctorAcc(prefix, K)
+					if why == "no-destination" {
+						continue
+					}
+					if got != (K == cp) {
+						fails = append(fails, fail("C10", "use:NewLeaseSet2-key-validation", "NewLeaseSet2 with a %d-byte key of crypto code %d %s: accepted=%v %s; specification: %d bytes", K, c, name, got, why, cp))
+					}
+				}
+			}
 		}
 		return fmt.Sprintf("ok els=%v/%d/%d readsig=%v/%d ls2key=%v", ok, k, s, rok, n, acc), fails
 	})
